@@ -125,7 +125,7 @@ func replay(c *hx.Ctx, or *hx.Oracle, r *hx.RNG) {
 	case probe.Trie != nil && probe.First != "":
 		var rc rangeCase
 		hx.Must(json.Unmarshal(w.Replay, &rc))
-		replayRange(c, rc, true)
+		replayRange(c, or, rc, true)
 	case probe.Trie != nil:
 		report(c, evalCase(c, or, r, *probe.Trie, true), *probe.Trie)
 	default:
